@@ -229,7 +229,7 @@ def run(tier):
     exes = {v: build.driver(v, "exec_drv", libs=("executor", "solver", "core", "riddle", "smt", "json")) for v in ("dbg", "rel")}
     total = 480 if tier == "quick" else 6000
     per = 8 if tier == "quick" else 20
-    for fam in ("sv", "rr", "tl", "sync"):
+    for fam in ("sv", "rr", "tl", "sync", "task"):
         common.pmap(work, [(exes, fam, s, per) for s in range(0, total, per)], res)
     res.gate("atoms started", res.counters.get("histories: starts", 0) > 200)
     res.gate("delays injected", res.counters.get("histories: delays", 0) > 50)
